@@ -161,7 +161,8 @@ class Act(object):
             #  compute .inode
             self.inode = (self.ioinits or odict()).get('inode', ioinits.get('inode', self.inode))
             if self.inode is not None and not isinstance(self.inode, (str, bytes)):
-                raise ValueError("Nonstring inode '{0}'".format(self.inode))
+                raise excepting.ResolveError("ResolveError: Nonstring inode '{0}'".format(self.inode),
+                                             self.actor, self.inode, self.human, self.count)
             if self.inode and not self.inode.endswith("."):  # ensure node not share path
                 self.inode = "{0}.".format(self.inode)
 
@@ -769,7 +770,9 @@ class Actor(object):
                     else:
                         ival = odict(value=ival)
             else:
-                raise ValueError("Bad ioinit for key '{0}' with value '{1}'".format(key, val))
+                raise excepting.ResolveError("ResolveError: Bad ioinit for key '{0}' with value"
+                                             " '{1}'".format(key, val), key, val,
+                                             self._act.human, self._act.count)
 
             # inode is prepended in act.resolvePath
 
